@@ -58,6 +58,15 @@ const (
 // remoteMarker stands for "the remote address as Context.RemoteIP reports it for this request".
 const remoteMarker = "<remote address>"
 
+func hasAttrs(attrs map[string]string, keys ...string) bool {
+	for _, k := range keys {
+		if _, ok := attrs[k]; !ok {
+			return false
+		}
+	}
+	return true
+}
+
 func levelOf(status int) slog.Level {
 	switch {
 	case status >= 200 && status < 300:
@@ -354,6 +363,8 @@ func runC20(src sim.Source, o Opts) *Result {
 		switch {
 		case rec.Attrs["status"] != strconv.Itoa(wantStatus):
 			res.fail("C20/status", "%s: record status=%s, the recorder forwarded %d", where, rec.Attrs["status"], wantStatus)
+		case !hasAttrs(rec.Attrs, "status", "method", "host", "path"):
+			res.fail("C20/request-attrs", "%s: the record does not carry status, method, host and path (an empty value is still a value): %v", where, rec.Attrs)
 		case rec.Attrs["method"] != p.Method || rec.Attrs["host"] != p.Host || rec.Attrs["path"] != p.Path:
 			res.fail("C20/request-attrs", "%s: record has method=%s host=%s path=%s", where, rec.Attrs["method"], rec.Attrs["host"], rec.Attrs["path"])
 		case rec.Msg != wantMsg:
